@@ -181,3 +181,36 @@ def src_fingerprint():
                     h.update(fn.encode())
                     h.update(f.read())
     return h.hexdigest()[:16]
+
+
+def xs_enable(tier, every=12):
+    """Thorough tier: re-decide the main queries of every `every`-th encoding (chosen by VERIF_SEED) with z3 4.8.12 and cvc5."""
+    if tier == "thorough":
+        os.environ["VERIF_XSOLVER"] = str(every)
+
+
+def xs_run(solver, queries, verdicts, key, names):
+    n = int(os.environ.get("VERIF_XSOLVER", "0") or 0)
+    if not n:
+        return None
+    import zlib
+    if (zlib.crc32(repr(key).encode()) + seed()) % n:
+        return None
+    from vlib import xsolver
+    out = {}
+    for qn in names:
+        if qn in queries and verdicts.get(qn) in ("sat", "unsat"):
+            out[qn] = xsolver.cross_check(solver, queries[qn], verdicts[qn])
+    return out
+
+
+def xs_collect(rep, tag, r):
+    xs = r.get("xsolver")
+    if not xs:
+        return
+    st = rep.extra.setdefault("cross_solver", {"queries": 0, "disagreements": []})
+    for qn, v in xs.items():
+        st["queries"] += 1
+        if not v["agree"]:
+            st["disagreements"].append("%s %s: %r" % (tag, qn, v))
+            rep.inconclusive.append("%s: cross-solver check of %s: %r" % (tag, qn, v))
